@@ -2,7 +2,7 @@
 # adopt_many.sh tag  : lines "PROP|needs" on stdin
 T=$1
 while IFS='|' read -r P NEEDS; do
-  out=$(/verif/selftest/adopt.sh $P $T "$NEEDS" 2>&1 | grep -v "WARNING conda")
+  out=$("$(dirname "$0")"/adopt.sh $P $T "$NEEDS" 2>&1 | grep -v "WARNING conda")
   conf=$(echo "$out" | grep -c "CONFIRMED" ); nconf=$(echo "$out" | grep -c "NOT CONFIRMED")
   rc=$(echo "$out" | grep '"rc"' | head -1 | tr -dc '0-9')
   nsig=$(echo "$out" | grep -c "C[0-9][0-9]/")
